@@ -379,6 +379,8 @@ def receiver_oracle(line, impl, clauses):
     acc = b""
     k = 0
     pend = 0
+    final_seen = False
+    accepted_events = []
     for i, g in enumerate(groups):
         kind, n, payload = c.events[i]
         accepted_now = False
@@ -389,6 +391,7 @@ def receiver_oracle(line, impl, clauses):
             pend += 1
             accepted_now = True
             final_now = len(payload) < c.b
+            final_seen = final_seen or final_now
         acks = [t for t in g if t[0] == "A"]
         for t in acks:
             p = t[1:].split(":")
@@ -418,7 +421,10 @@ def receiver_oracle(line, impl, clauses):
     if "fidelity" in clauses and st == "ok":
         if fin != "%d:%d" % (len(acc), fnv(acc)):
             return ("stored file differs from the in-order blocks", "final-file")
-    if "cleanup" in clauses and st == "failed":
+    if "cleanup" in clauses and st in ("failed", "ok") and not final_seen:
+        # the upload ended without its final block (peer ERROR, silence): whatever the worker reports, it failed
+        if st == "ok" and c.clean and fin != "none":
+            return ("an upload that ended without its final block is reported as complete and its partial file is left behind", "failure-swallowed")
         if c.clean and fin != "none":
             return ("failed upload not removed although clean-on-error", "not-cleaned")
         if not c.clean:
